@@ -234,7 +234,25 @@ class Mode:
                                  detail="the code produces %s (a division by an exact zero) where a finite value is specified" % type(got).__name__)
             g, e = S.lift(got), S.lift(exp)
             vg, ve = S.expand(g), S.expand(e)
-            ok = alg.v_equal(vg, ve)
+            # a LARGE pair of values that differ costs far more to normalise than an equal pair (nothing cancels): look at one
+            # concrete point first - a point of the domain (of the current path) at which they differ refutes the equality,
+            # with that point as the failing input; agreement there proves nothing and the exact comparison follows
+            if _vsize(vg) + _vsize(ve) > 600 or _nparts(vg) + _nparts(ve) >= 8:
+                quick = self._quick_refute(name, vg, ve, t)
+                if quick is not None:
+                    return quick
+            alg.DEADLINE[0] = time.time() + (40 if not getattr(self, "_slow", False) else 3)
+            try:
+                ok = alg.v_equal(vg, ve)
+            except alg.Undecided as e_:
+                # the exact comparison is too expensive: a concrete point may still refute it; otherwise the obligation is undecided
+                # (and the later comparisons of this task get a short budget: the task as a whole stays bounded)
+                self._slow = True
+                alg.DEADLINE[0] = None
+                quick = self._quick_refute(name, vg, ve, t)
+                return quick if quick is not None else self._rec(name, "undecided", "polyid", time.time() - t, detail=str(e_))
+            finally:
+                alg.DEADLINE[0] = None
             if ok:
                 xc = self._crosscheck(g, e)
                 if xc is not None:
@@ -292,6 +310,45 @@ class Mode:
         if scale is not None:
             return self._rec(name, "value", self.kind, 0.0, got=_num(got), exp=_num(exp), scale=_num(scale))
         return self._rec(name, "value", self.kind, 0.0, got=_num(got), exp=_num(exp))
+
+    def _quick_refute(self, name, vg, ve, t):
+        from . import alg
+
+        ex = getattr(self, "explorer", None)
+        if ex is not None and ex.pc:
+            from . import paths as P
+
+            if getattr(self, "_nfailed", 0) >= 16:
+                raise EnoughRefuted()
+            fs = ex.fixed + P.pc_formulas(ex.pc)
+            cache = ex.__dict__.setdefault("_cx", {})
+            if cache.get("n") != len(ex.pc):
+                cache.clear()
+                cache["n"] = len(ex.pc)
+                cache["sat"] = P.check_sat(fs)
+            r, model, dt = cache["sat"]
+            if r != "sat":
+                return None
+            concl = ("atom", alg.v_sub(vg, ve), "==")
+            real = None
+            if cache.get("env") is not None:
+                if P.check_point(fs, concl, cache["env"]):
+                    real = cache["env"]
+                    P.LAST_DIFF[0] = 0.0
+            elif getattr(self, "_ncx", 0) < 8:
+                self._ncx = getattr(self, "_ncx", 0) + 1
+                real = P.numeric_counterexample(fs, concl, model)
+                if real is not None:
+                    cache["env"] = real
+            if real is None:
+                return None
+            return self._rec(name, "failed", "numeric-point+z3", time.time() - t, cex={"env": real, "diff": P.LAST_DIFF[0]},
+                             detail="differs at a concrete point of a feasible path (a value-dependent branch in the code)")
+        cex = find_counterexample(vg, ve, self.used, tries=1)
+        if cex is None:
+            return None
+        return self._rec(name, "failed", "numeric-point", time.time() - t, cex=cex, got=cex.get("got"), exp=cex.get("exp"),
+                         detail="the two values differ at this point of the domain (40-digit evaluation)")
 
     def _crosscheck(self, g, e):
         """independent second opinion on a sample of the equalities polyid accepts: both expression DAGs are
@@ -522,6 +579,25 @@ def random_env(used, rng, spread=2.0):
     return env
 
 
+def _vsize(v):
+    from . import alg
+
+    try:
+        return sum(len(part.n) for part in alg.simple_parts(v))
+    except Exception:
+        return 0
+
+
+def _nparts(v):
+    """number of terms with their own denominator: bringing many of them over a common denominator is what blows up"""
+    from . import alg
+
+    try:
+        return len(list(alg.simple_parts(v)))
+    except Exception:
+        return 0
+
+
 def find_counterexample(vg, ve, used, tries=12, seed=None):
     """a rational point where the two canonical values differ (evaluated at 40 digits)"""
     from . import alg, fields
@@ -733,11 +809,11 @@ def _explore_harness(h, shape, M):
         npaths += 1
         if enough or (stack and sum(1 for r in allres if r["status"] == "failed") >= 16):
             break  # the contract is already refuted on the explored paths; further paths add nothing to the verdict
-        if stack and (npaths >= 1024 or (npaths >= 8 and time.time() - t_start > 45.0)):
+        if stack and (npaths >= 1024 or (npaths >= 8 and time.time() - t_start > 45.0) or time.time() - t_start > 240.0):
             # budget exhausted: what the explored paths established (including failed obligations) is kept, the rest
             # is reported as undecided - never as held
             allres.append({"name": "paths/all-explored", "status": "undecided", "backend": "z3", "secs": 0.0,
-                           "detail": "%d paths explored, %d alternatives left unexplored (budget: 45 s once 8 paths are done, at most 1024 paths)" % (npaths, len(stack))})
+                           "detail": "%d paths explored, %d alternatives left unexplored (budget: 45 s once 8 paths are done, 240 s in any case, at most 1024 paths)" % (npaths, len(stack))})
             break
     M.results = allres
 
